@@ -213,10 +213,11 @@ class Tr:
 
 
 # ---------------------------------------------------------------------------------------------
-# ManyToMany.add / remove: statements on self.data / self.inv.data (dicts of set objects)
+# ManyToMany.add / remove / __delitem__: statements on self.data / self.inv.data (dicts of set objects)
 # ---------------------------------------------------------------------------------------------
-M_METHODS = ["add", "remove"]
-M_PARAMS = {"add": ["key", "val"], "remove": ["key", "val"]}
+M_METHODS = ["add", "remove", "__delitem__"]
+M_PARAMS = {"add": ["key", "val"], "remove": ["key", "val"], "__delitem__": ["key"]}
+M_COQ = {"add": "srcm_add", "remove": "srcm_remove", "__delitem__": "srcm_delitem"}
 
 
 class TrM:
@@ -271,6 +272,25 @@ class TrM:
             a = self.name(s.value.args[0], env)
             prim = "pm_set_add" if s.value.func.attr == "add" else "pm_set_remove"
             return "bind (%s self %s %s %s) (fun self =>\n%s)" % (prim, d, k, a, self.block(rest, env))
+        if isinstance(s, ast.For) and not s.orelse and isinstance(s.target, ast.Name):
+            # for v in D.pop(k): body      (body without break / return / continue)
+            it = s.iter
+            if not (isinstance(it, ast.Call) and isinstance(it.func, ast.Attribute) and it.func.attr == "pop"
+                    and len(it.args) == 1 and not it.keywords):
+                raise Unsupported("loop iterable %s" % ast.dump(it))
+            for n in ast.walk(ast.Module(body=s.body, type_ignores=[])):
+                if isinstance(n, (ast.Break, ast.Return, ast.Continue, ast.Yield)):
+                    raise Unsupported("control flow inside the loop body")
+            d = self.msel(it.func.value)
+            k = self.name(it.args[0], env)
+            v = s.target.id
+            if v in env:
+                raise Unsupported("loop variable shadows %s" % v)
+            env2 = dict(env)
+            env2[v] = "p_" + v
+            body = self.block(list(s.body), env2)
+            return ("bind (pm_pop self %s %s) (fun r => let '(vals, self) := r in\n"
+                    "bind (pm_for vals (fun self p_%s =>\n%s) self) (fun self =>\n%s))" % (d, k, v, body, self.block(rest, env)))
         if isinstance(s, ast.Delete) and len(s.targets) == 1:
             d, k = self.entry(s.targets[0], env)
             return "bind (pm_delitem self %s %s) (fun self =>\n%s)" % (d, k, self.block(rest, env))
@@ -284,8 +304,8 @@ class TrM:
         if params != ["self"] + M_PARAMS[name]:
             raise Unsupported("%s: parameters %s" % (name, params))
         env = {p: "p_" + p for p in M_PARAMS[name]}
-        return "Definition srcm_%s (self : m2m) %s : res (val * m2m) :=\n%s.\n" % (
-            name, " ".join("(p_%s : nat)" % p for p in M_PARAMS[name]), self.block(list(node.body), env))
+        return "Definition %s (self : m2m) %s : res (val * m2m) :=\n%s.\n" % (
+            M_COQ[name], " ".join("(p_%s : nat)" % p for p in M_PARAMS[name]), self.block(list(node.body), env))
 
 
 def generate_m2m(tree):
@@ -331,6 +351,6 @@ def generate(repo):
             raise Unsupported("OneToOne.%s is not a plain method" % m)
         out.append(Tr(done).method(node, m))
         done.add(m)
-    out.append("(* class ManyToMany: add / remove *)")
+    out.append("(* class ManyToMany: add / remove / __delitem__ *)")
     out += generate_m2m(tree)
     return "\n".join(out)
